@@ -418,7 +418,7 @@ def _parse_properties(
 def _unique_attribute_name(key: str, taken: Container[str]) -> str:
     """Get an attribute name for a property, distinct from its siblings'."""
     name = _parse_attribute_name(key)
-    while name in taken:
+    while name in taken or name in RESERVED_PROPERTIES:
         name += "_"
     return name
 
